@@ -5,10 +5,11 @@
 From Coq Require Import String.
 From CCT Require Import Prelude Hex Num Time Formats PySrc.
 From CCT.Gen Require Source.
-From CCT.proofs Require Import SourceFacts SourceSigFacts SourceEnvFacts SourceNumFacts.
+From CCT.proofs Require Import SchemaFacts SourceFacts SourceSigFacts SourceEnvFacts SourceNumFacts SourceDmFacts JsonFacts SourceJsonFacts.
 
 Theorem C14src_translated :
-  forallb (fun f => existsb (String.eqb f) (map fst Source.program)) ["is_signable"; "checkformat_signable"; "checkformat_natural_int"; "checkformat_list_of_hex_keys"]%string = true
+  forallb (fun f => existsb (String.eqb f) (map fst Source.program)) ["is_signable"; "checkformat_signable"; "checkformat_natural_int"; "checkformat_list_of_hex_keys"; "checkformat_utc_isoformat";
+     "checkformat_delegation"; "checkformat_delegations"; "checkformat_delegating_metadata"]%string = true
   /\ Source.call_graph_acyclic = true.
 Proof. split; reflexivity. Qed.
 
@@ -43,8 +44,74 @@ Theorem C14src_checkformat_list_of_hex_keys : forall v,
   run_prog Source.program "checkformat_list_of_hex_keys" [v] = returns_arg (checkformat_list_of_hex_keys v) v.
 Proof. exact src_checkformat_list_of_hex_keys. Qed.
 
+(* the date fields: strptime with the package's format string, and the handler that turns its ValueError into TypeError *)
+Theorem C14src_checkformat_utc_isoformat : forall v,
+  run_prog Source.program "checkformat_utc_isoformat" [v] = returns_arg (checkformat_utc_isoformat v) v.
+Proof. exact src_checkformat_utc_isoformat. Qed.
+
+(* one delegation: the set() of its keys, the >= test, the comprehension over the keys, then the two leaf checkers *)
+Theorem C14src_checkformat_delegation : forall v, dict_ok v ->
+  run_prog Source.program "checkformat_delegation" [v] = returns_arg (checkformat_delegation v) v.
+Proof. exact src_checkformat_delegation. Qed.
+
+(* the delegations dict: the loop over its keys, d[k] for each *)
+Theorem C14src_checkformat_delegations : forall v, delegation_dicts_ok v ->
+  run_prog Source.program "checkformat_delegations" [v] = returns_arg (checkformat_delegations v) v.
+Proof. exact src_checkformat_delegations. Qed.
+
+(* THE CHECKER, as written in common.py (envelope gate, loop over the signature map, required-field loop, type against the
+   supported list, spec version, delegations, expiration, the version/timestamp rules, the assert, the optional fields), computes the
+   hand-written model on every argument satisfying checker_input_ok -- whose four clauses hold of every value json.load returns
+   except that a version given as text is left out (int() of text is outside the interpreter) *)
+Theorem C14src_checker_input_ok_meaning : forall v,
+  checker_input_ok v <->
+  dict_ok v
+  /\ (forall sm, subscript v (U"signatures") = Ok (VDict sm) ->
+        all_str_keys sm = true /\ NoDup (map fst sm) /\ Forall (fun p => outside_sorted (snd p) = false) sm)
+  /\ (forall c, subscript v (U"signed") = Ok c ->
+        (forall dl, subscript c (U"delegations") = Ok dl -> delegation_dicts_ok dl)
+        /\ (forall ve, subscript c (U"version") = Ok ve -> not_text ve = true)).
+Proof. intros v. reflexivity. Qed.
+
+Theorem C14src_checker_refines : forall v, checker_input_ok v ->
+  run_prog Source.program "checkformat_delegating_metadata" [v] = (checkformat_delegating_metadata v ;;; Ok VNone).
+Proof. exact src_checkformat_delegating_metadata. Qed.
+
+(* hence the property itself, of the source text: the function in common.py returns (None) exactly on the documented schema *)
+Theorem C14src_checker_iff_schema : forall v, checker_input_ok v ->
+  (run_prog Source.program "checkformat_delegating_metadata" [v] = Ok VNone <-> dm_ok v).
+Proof. exact src_checker_iff_schema. Qed.
+
 Theorem C14src_json_dicts_are_ok : forall m, all_str_keys m = true -> NoDup (map fst m) -> dict_ok (VDict m).
 Proof. exact dict_ok_str_keys. Qed.
+
+(* on the JSON domain (jdom: what json.load returns -- str keys, pairwise distinct at every level, JSON number tokens) the side conditions
+   reduce to one: a version, if present, is not text.  So for every such document the checker in the source decides the schema. *)
+Theorem C14src_json_values_ok : forall v, jdom v = true ->
+  (forall c ve, subscript v (U"signed") = Ok c -> subscript c (U"version") = Ok ve -> not_text ve = true) ->
+  checker_input_ok v.
+Proof. exact jdom_checker_input_ok. Qed.
+
+Theorem C14src_checker_iff_schema_on_json : forall v, jdom v = true ->
+  (forall c ve, subscript v (U"signed") = Ok c -> subscript c (U"version") = Ok ve -> not_text ve = true) ->
+  (run_prog Source.program "checkformat_delegating_metadata" [v] = Ok VNone <-> dm_ok v).
+Proof. intros v J NT. exact (src_checker_iff_schema v (jdom_checker_input_ok v J NT)). Qed.
+
+(* non-vacuity of the checker theorems: a concrete root document meets checker_input_ok and the interpreted source accepts it;
+   the same document without its version is rejected by the interpreted source with ValueError *)
+Definition ex_key := VStr (repeat 97 64).
+Definition ex_deleg := VDict [(VStr (U"pubkeys"), VList [ex_key]); (VStr (U"threshold"), VInt 1)].
+Definition ex_signed (extra : list (pv * pv)) :=
+  VDict ([(VStr (U"type"), VStr (U"root")); (VStr (U"metadata_spec_version"), VStr (U"0.6.0"));
+          (VStr (U"delegations"), VDict [(VStr (U"root"), ex_deleg)]);
+          (VStr (U"expiration"), VStr (U"2030-01-01T00:00:00Z"))] ++ extra).
+Definition ex_env (extra : list (pv * pv)) :=
+  VDict [(VStr (U"signatures"), VDict [(VStr (repeat 98 64), VDict [(VStr (U"signature"), VStr (repeat 99 128))])]); (VStr (U"signed"), ex_signed extra)].
+Example C14src_checker_witness :
+  checker_input_ok (ex_env [(VStr (U"version"), VInt 1)])
+  /\ run_prog Source.program "checkformat_delegating_metadata" [ex_env [(VStr (U"version"), VInt 1)]] = Ok VNone
+  /\ run_prog Source.program "checkformat_delegating_metadata" [ex_env []] = Err ValueError.
+Proof. exact src_checker_witness. Qed.
 
 Example C14src_witness :
   run_prog Source.program "is_signable" [VDict [(VStr (U"signatures"), VDict []); (VStr (U"signed"), VInt 1)]] = Ok (VBool true)
@@ -72,5 +139,14 @@ Print Assumptions C14src_checkformat_signable.
 Print Assumptions C14src_envelope_has_exactly_two_fields.
 Print Assumptions C14src_checkformat_natural_int.
 Print Assumptions C14src_checkformat_list_of_hex_keys.
+Print Assumptions C14src_checkformat_utc_isoformat.
+Print Assumptions C14src_checkformat_delegation.
+Print Assumptions C14src_checkformat_delegations.
+Print Assumptions C14src_checker_input_ok_meaning.
+Print Assumptions C14src_checker_refines.
+Print Assumptions C14src_checker_iff_schema.
+Print Assumptions C14src_json_values_ok.
+Print Assumptions C14src_checker_iff_schema_on_json.
+Print Assumptions C14src_checker_witness.
 Print Assumptions C14src_json_dicts_are_ok.
 Print Assumptions C14src_witness.
